@@ -104,8 +104,10 @@ def default_pick(prog, root, keep=(), cross=None):
         if g.file != root.file and not (cross is not None and cross(g)):
             # a helper that lives in another file is still this file's helper if nobody else uses it
             # (a private module split off the file); anything shared is a crate-internal API
-            users = {h.file for h in prog.callers(g)} - {g.file}
-            if users != {root.file} or g.path.lstrip("<").startswith(PRIMITIVE_MODULES):
+            # a non-public function of a sibling module (same directory) is an implementation detail
+            # shared inside that part of the crate; primitives and infrastructure modules are not
+            import os as _os
+            if _os.path.dirname(g.file) != _os.path.dirname(root.file) or g.path.lstrip("<").startswith(PRIMITIVE_MODULES):
                 return False
         for k in keep:
             if callable(k):
